@@ -507,7 +507,7 @@ func genScenario(seed uint64, thorough bool, gt uint32, compr bool, recycle bool
 		// "side": the tip (a churn block) is disconnected - its undo data is applied and stays visible in the set
 		rounds = 11
 		if thorough {
-			rounds = 30
+			rounds = 24
 		}
 		kinds = []string{"churn", "churn", "churn", "side", "churn", "sidebad", "valid"}
 		fixed = []string{"churn", "churn", "churn", "side", "churn", "churn", "side", "churn", "sidebad", "churn", "side"}
@@ -1156,7 +1156,7 @@ func workerMain(args []string) {
 		n := 4
 		if thorough {
 			procs = []int{2, 4, 8, 16, 3, 12, 6, 5}
-			n = 10
+			n = 7
 		}
 		for i := 0; i < n; i++ {
 			cfg := Cfg{Procs: procs[i%len(procs)], Perturb: g.U64() | 1, Aux: i%3 == 2, Alloc: true}
